@@ -998,6 +998,8 @@ func runC03(r *Run) {
 	ruleJumpResolutionRedirects(r, "R03.18")
 	r.floor("R03.19", 6)
 	ruleInnerFlushOverrides(r, "R03.19")
+	r.floor("R03.24", 15)
+	ruleFlushResetsCoroutines(r, "R03.24")
 	r.floor("R03.21", 12)
 	ruleEpochBumped(r, "R03.21")
 	r.floor("R03.22", 7)
@@ -1590,6 +1592,28 @@ func ruleJumpResolutionRedirects(r *Run, rule string) {
 					}
 				}
 				r.check(good, rule, fmt.Sprintf("%s.%s:unconditional-redirect", v.rel, declName(fd)), fd.Pos(), "when a jump's target is resolved the branch target buffer is updated and the fetch unit redirected to the resolved target unconditionally (a buffer hit is never verified elsewhere)")
+				// and the execute stage reports every resolved jump: the notification is called with
+				// the executed instruction's NextPc as the target
+				self, _ := info.Defs[fd.Name].(*types.Func)
+				called := false
+				for _, f2 := range v.pkg.Syntax {
+					ast.Inspect(f2, func(m ast.Node) bool {
+						call, ok := m.(*ast.CallExpr)
+						if !ok || len(call.Args) != 2 {
+							return true
+						}
+						if cf, ok := typeutil.Callee(info, call).(*types.Func); !ok || cf != self {
+							return true
+						}
+						if sel, ok := ast.Unparen(call.Args[1]).(*ast.SelectorExpr); ok {
+							if s2 := info.Selections[sel]; s2 != nil && s2.Kind() == types.FieldVal && s2.Obj().Name() == "NextPc" {
+								called = true
+							}
+						}
+						return true
+					})
+				}
+				r.check(called, rule, fmt.Sprintf("%s.%s:reported", v.rel, declName(fd)), fd.Pos(), "the execute stage reports a resolved jump (with the executed instruction's next pc as the target): the decode stage stalls after a jump until it is told")
 			}
 		}
 	}
